@@ -16,30 +16,11 @@ F = [
       mechanism='two parameters of one node bound to the same upstream node collapse into one graph edge (nx.DiGraph holds one edge '
                 'A->B; the second kwarg_name overwrites the first, builder.py _add_node_pair_to_dag), so one parameter is silently not supplied',
       witness={'C15': 'witnesses/KF-DUP-build.json', 'C03': 'witnesses/KF-DUP.json'}),
- dict(id='KF-REC2', family='rec_two_scopes', properties=RUNP + ['C19'], kinds=GEN + ['exception_saved'],
+ dict(id='KF-REC2', family='rec_two_scopes', properties=RUNP + ['C19'], kinds=GEN,
       mechanism='a recurrent destination that is reached from two sub-pipeline scopes (main pipeline and a switch case / one-of candidate / '
                 'second execution of a switch): while the subgraph re-iterates, the second scope takes the duplicate-request path of '
                 '_execute_node, reads the hidden result as None and _run_node stores and propagates that None (manager.py 309-314, 645-646)',
       witness={'C03': 'witnesses/KF-REC2.json', 'C01': 'witnesses/KF-REC2.json'}),
- dict(id='KF-SWCAND', family='cand_fail_via_switch', properties=RUNP + ['C19'], kinds=GEN + HANG + ['exception_saved', 'saved_value_not_final'],
-      mechanism='a failure inside the case sub-pipeline (or decider) of a switch that sits inside a one-of candidate: the exception is stored as '
-                'the case node\'s value, the candidate\'s own sub-DAG does not contain the case nodes so __has_subgraph_error does not see it; '
-                'the consumer is invoked with the exception instance, or the candidate never finishes (manager.py 333-340, 526-533, 588-603)',
-      witness={'C03': 'witnesses/KF-SWCAND.json', 'C10': 'witnesses/KF-SWCAND.json', 'C01': 'witnesses/KF-SWCAND.json'}),
- dict(id='KF-SHARED', family='cand_fail_shared', properties=RUNP + ['C19'], kinds=GEN + HANG + ['exception_saved'],
-      mechanism='a failing node needed both inside a one-of candidate and outside it: when the candidate scope executes it first the exception '
-                'is stored as an ordinary result (dag.is_oneof) and the outside consumer is started with the exception instance / the run '
-                'returns a value although a required node failed (manager.py 333-340)',
-      witness={'C05': 'witnesses/KF-SHARED.json'}),
- dict(id='KF-LOSER', family='cand_after_losing_oneof', properties=RUNP + ['C19'], kinds=GEN + HANG + ['exception_saved', 'saved_value_not_final'],
-      mechanism='a candidate whose sub-pipeline contains the consumer of another one-of that had a losing candidate: the loser stays in every later '
-                'reduced DAG with its exception as result, __has_subgraph_error declares the healthy candidate failed and the run ends with '
-                'OneOfDoesNotHaveResultError (manager.py 257-267, 526-533)',
-      witness={'C01': 'witnesses/KF-LOSER.json', 'C05': 'witnesses/KF-LOSER.json'}),
- dict(id='KF-RECCAND', family='cand_fail_in_rec', properties=RUNP + ['C19'], kinds=GEN + HANG + ['exception_saved'],
-      mechanism='a failure inside a recurrent subgraph that sits inside a one-of candidate (hang repaired by 09553b0); residual: the stored '
-                'exception of the failed iteration can still be delivered to a consumer that shares the node with another scope',
-      witness={}),
  dict(id='KF-STORE-REC', family='rec_iterates', properties=['C19'],
       kinds=['recurrent_marker_saved', 'saved_more_than_once', 'write_once_store_failed_run', 'exception_saved', 'saved_value_not_final'],
       mechanism='_run_node saves every intermediate result (manager.py 645-649, see the TODO): the Recurrent marker of the destination and '
@@ -58,6 +39,10 @@ F = [
 for f in F:
     f['status'] = 'open'
 FIXED = [
+ 'fixed: property=C10 eeef9a0 a failure inside a switch case inside a one-of candidate: consumer invoked with the exception instance / hang (witnesses/D11.json); also C02 C03 C05',
+ 'fixed: property=C10 993066e started one-of candidates stayed visible in every later reduced DAG: healthy candidate declared failed, candidate executed by a foreign scope (witnesses/D21.json); also C01 C05',
+ 'fixed: property=C05 26f721c all-fail one-of in a switch case inside a candidate ended the whole run with OneOfDoesNotHaveResultError (witnesses/D22.json); also C10',
+ 'fixed: property=C05 5444997 failing node shared by a candidate and the main pipeline: exception delivered as a value, value returned although a required node failed (witnesses/D23.json); also C03 C10',
  'fixed: property=C05 c73cadd CancelledError escaped chart.run when a one-of early exit cancelled pending sibling tasks (witness witnesses/D5.json)',
  'fixed: property=C07 e9c5317 second run of a one-of fallback chart failed with the first candidate\'s error: is_oneof_child cleared on the shared graph (witnesses/D6.json)',
  'fixed: property=C07 5d63909 additional_data of a recurrent iteration leaked into the next run / other overlapping runs through the shared graph (witnesses/D7.json); also C08',
